@@ -353,7 +353,7 @@ def run(ctx):
 
     stats = {"ok": 0, "tiny": 0, "skip": 0, "diff": 0, "fail": 0}
     maxdev6 = 0.0
-    for prec, tol, ops in ((17, 0, ops17), (6, 2e-3, ops6)):
+    for prec, tol, ops in ((17, 0, ops17), (6, 2e-4, ops6)):
         rc, out, err = ctx.run_lines([impl], ["prec %d" % prec, "tol %g" % tol] + ops, timeout=3000)
         res = [parse_result(o) for o in out[2:]]
         nexp = sum(1 for o in ops if o.split(" ")[0] in ("model", "xml", "file"))
@@ -415,12 +415,28 @@ def run(ctx):
             else:
                 stats["diff"] += 1
                 key = "c32:precision6-deviation-above-tolerance:" + ",".join(sorted(f[0] for f in fl)[:4])
-                ctx.oracle_failure(key, "at the default xml precision the reloaded model deviates by %.3g (> 2e-3 normalised) or in an "
+                ctx.oracle_failure(key, "at the default xml precision the reloaded model deviates by %.3g (> 2e-4 normalised) or in an "
                                    "integer array: %s" % (dev, ", ".join("%s[%s] %s -> %s" % (f[0], f[2], f[3], f[4]) for f in fl[:4])), replay)
     ctx.extra["roundtrip"] = dict(stats, origins=len(meta), max_normalised_deviation_at_precision_6=maxdev6,
-                                  tolerance_at_precision_6=2e-3)
+                                  tolerance_at_precision_6=2e-4)
     ctx.oblige("at least 40%% of the round-trip origins compile (%d skipped of %d)" % (stats["skip"], len(meta)),
                "generator-coverage", stats["skip"] * 10 <= len(meta) * 6, "")
+
+    def directed(c):
+        # the table-level tie broke but the oracle saw nothing: push the disagreeing documents themselves through the
+        # round trip and report the first one whose reloaded model differs (beyond number formatting) or does not load
+        docs = [d["line"].split(" ")[-1] for d in c.disagreements if d.get("line", "").startswith("w ")]
+        if not docs:
+            return None
+        _, out, _ = c.run_lines([impl], ["prec 17", "tol 0"] + ["xml t%d %s" % (i, h) for i, h in enumerate(docs)])
+        for h, o in zip(docs, out[2:]):
+            r = parse_result(o)
+            if r["status"] == "fail" or (r["status"] == "diff" and float(r.get("maxdev", 0)) > TINY):
+                return {"key": "c32:reloaded-model-differs:table-tie-document", "what": "save -> parse -> compile changes the model of a "
+                        "document on which the table writer disagrees with its model: " + o.split(" xml=")[0][:300],
+                        "replay": {"xml": bytes.fromhex(h).decode("utf-8", "replace")}}
+        return None
+    ctx.directed_search = directed
 
 
 def o_msg(r):
